@@ -2300,7 +2300,13 @@ class Transport(threading.Thread, ClosingContextManager):
             except Exception as e:
                 self._log(ERROR, "Unknown exception: " + str(e))
                 self._log(ERROR, util.tb_strings())
-                self.saved_exception = e
+                # Whatever went wrong while handling peer data, report it
+                # through the documented exception type (cause preserved).
+                wrapped = SSHException(
+                    "Unexpected {}: {}".format(type(e).__name__, e)
+                )
+                wrapped.__cause__ = e
+                self.saved_exception = wrapped
             _active_threads.remove(self)
             for chan in list(self._channels.values()):
                 chan._unlink()
